@@ -130,6 +130,13 @@ def walkList (a : Arena) : Nat → List Item → List Item
             | .tup ys => walkList a fuel ys
             | .lst ys => walkList a fuel ys
             | other => walkList a fuel [other]   -- `node_list = [node_list]`
+        | .lst comps =>
+          -- `elif isinstance(child, (list, tuple))` (HEAD feeadef: lists too)
+          comps.flatMap fun comp =>
+            match comp with
+            | .tup ys => walkList a fuel ys
+            | .lst ys => walkList a fuel ys
+            | other => walkList a fuel [other]
         | _ => [])
 
 def arenaFuel (a : Arena) : Nat :=
